@@ -16,6 +16,7 @@ func init() {
 			"PV-ROLE ParseOptions.AllowDots reaches lexer and parser; FE-CLASS scanner identifier characters (a leading `_` starts an identifier)",
 			"PV-WHOLE mergeIter.init pushes the first record of every non-empty stream",
 			"PV-ROLE the scanner reads Tokenize's own parameter",
+			"openLog context; LP-OFFLOAD provenance: only selector matchers and leading line filters are offloaded",
 		},
 		NotDecided: []string{"the empty key (maps to the empty name; recorded as an assumption)", "collisions of two Docker keys that sanitise to the same name", "that the representatives cover every rune: they cover both sides of every comparison constant in the ASCII range and letters/digits/symbols outside it"},
 		Rules: func(r *Run) {
@@ -31,6 +32,9 @@ func init() {
 			ruleScannerIdentRune(r)
 			ruleMergeIter(r) // every selected container contributes its records
 			ruleLexerInputVerbatim(r)
+			ruleOpenLogContext(r)
+			ruleLPOffload(r)
+			ruleOffloadProvenance(r) // a label filter after a parser stage is not matched against the container labels
 		},
 	})
 }
